@@ -97,7 +97,7 @@ def repv(n, f):
 
 # ---------------------------------------------------------------- items
 def Open(tag="el", define=(), sw=NOE, cs=NOE, cond=NOE, rep=None, sub=None, omit=None,
-         sattr=(), dattr=(), oe=None, name=None, bools=(), dm="", um=None, ds="", fs="", i18n=None):
+         sattr=(), dattr=(), oe=None, name=None, bools=(), dm="", um=None, ds="", fs="", i18n=None, tr=None, nm="", ia=()):
     """define: list of (global?, name, expr); rep: (global?, name, expr);
     sub: (mode, structure?, expr); omit: True | expr; sattr: list of names;
     dattr: list of (name, expr); oe: (structure?, expr)"""
@@ -130,6 +130,10 @@ def Open(tag="el", define=(), sw=NOE, cs=NOE, cond=NOE, rep=None, sub=None, omit
     it["i18n"] = dict({"m": "no", "d": "", "c": "", "t": ""}, **(i18n or {}))
     if i18n:
         it["i18n"]["m"] = "yes"
+    # i18n:translate (tr: None | "" | explicit id), i18n:name (nm), i18n:attributes (ia: [(name, id or "")])
+    it["tr"] = {"m": "yes", "id": tr} if tr is not None else {"m": "no", "id": ""}
+    it["nm"] = nm
+    it["ia"] = [{"n": n, "key": n.lower(), "id": i} for n, i in ia]
     if name:
         it["name"] = name
     return it
